@@ -387,7 +387,7 @@ class C02Engine(IrEngineBase):
             pre["src_ids"] = {id(x) for x in u.closure(src)}
             if spec.kind == "op.clone_without_regions":
                 pre["canon"] = _canon_op_shallow(u, src)
-            elif spec.kind == "op.clone":
+            elif spec.kind in ("op.clone", "apply_to_clone"):
                 pre["canon"] = canon(u, src)
             else:
                 pre["canon"] = canon(u, _region_blocks(src))
@@ -428,6 +428,13 @@ class C02Engine(IrEngineBase):
         return None
 
     def after_raise(self, u: Universe, act: C.Act, pre: Any, exc: str, step: int, st: Counter[str]) -> Violation | None:
+        if act.clone is not None and act.clone.kind == "apply_to_clone":
+            # the pass itself may legitimately reject the (arbitrary) IR; whatever
+            # happens, the original module must be untouched
+            st["reach.apply_to_clone_pass_raised"] += 1
+            if snap_tree(u, act.clone.source) != pre["src_snap"]:
+                return Violation("clone-modified-source", act.name, step, f"apply_to_clone raised {exc} and the original module {u.nm(act.clone.source)} was modified", f"clone-modified-source:{act.name}")
+            return self._isolation(u, act, pre, step, st)
         if act.clone is not None:
             return Violation("clone-raised", act.name, step, f"clone call with valid arguments raised {exc}", f"clone-raised:{exc}:{act.name}")
         return self._isolation(u, act, pre, step, st)
@@ -447,6 +454,28 @@ class C02Engine(IrEngineBase):
         src = spec.source
         if snap_tree(u, src) != pre["src_snap"]:
             return bad("clone-modified-source", f"the cloned {type(src).__name__} {u.nm(src)} is not identical to what it was before the call")
+        if spec.kind == "apply_to_clone":
+            ps = spec.value_mapper["pass"]  # type: ignore[index]
+            new_mod = ret[1] if isinstance(ret, tuple) and len(ret) == 2 else None
+            if not isinstance(new_mod, Operation) or new_mod is src or new_mod.parent is not None:
+                return bad("clone-result", "apply_to_clone did not return a new detached module")
+            if hasattr(ps, "received"):
+                if ps.received is src:
+                    return bad("clone-modified-source", "apply_to_clone applied the pass to the original module")
+                if ps.received is not new_mod:
+                    return bad("clone-result", "apply_to_clone returned a module other than the one the pass was applied to")
+                if ps.canon_at_entry != pre["canon"]:
+                    return bad("clone-not-equivalent", "the module handed to the pass is not equivalent to the original " + _first_diff(pre["canon"], ps.canon_at_entry))
+            copy_objs = u.closure(new_mod)
+            for x in copy_objs:
+                if id(x) in pre["src_ids"]:
+                    return bad("clone-shares-object", f"{u.nm(x)} belongs to both the original module and the module returned by apply_to_clone")
+            src_dicts = {id(o.attributes) for o in u.closure(src) if isinstance(o, Operation)} | {id(o.properties) for o in u.closure(src) if isinstance(o, Operation)}
+            for x in copy_objs:
+                if isinstance(x, Operation) and (id(x.attributes) in src_dicts or id(x.properties) in src_dicts):
+                    return bad("clone-shares-object", f"attribute/property dictionary of {u.nm(x)} is the very dictionary of an op of the original module")
+            st["reach.apply_to_clone_checked"] += 1
+            return None
         if spec.kind in ("op.clone", "op.clone_without_regions"):
             if not isinstance(ret, Operation) or ret is src or ret.parent is not None:
                 return bad("clone-result", "clone did not return a new detached operation")
